@@ -323,7 +323,7 @@ def gen_ace(rng, platform: str, version: str = "", *, small=None, allow_group=Tr
 
 
 REMARK_WORDS = ["web", "servers", "permit", "deny", "10", "any", "host", "=", "==", "RULE-1", "to:", "db,", "x.y", "remark",
-                "C-1,", "text", "#1", "ip", "eq", "(tmp)", "a/b", "100%", "log"]
+                "C-1,", "text", "#1", "ip", "eq", "(tmp)", "a/b", "100%", "log", "ignore", "description", "statistics", "(12 matches)", "[match=5]"]
 
 
 def gen_remark(rng, *, seq=0, heading: str | None = None, uniq: str = "") -> dict:
